@@ -155,6 +155,15 @@ CHECKS.update({
          'must equal the specification.',
          TRUSTED + '; the storage back-end stores copies (a plain dict would alias the FSM state data); for snapshots without a stop time stamp (crash) only expiration None / <= 0 is asserted, as documented', '6 C06'),
 })
+CHECKS.update({
+ 'C07': (MC, 'TLC model checking of Cron.tla (toy day: timetable, sleep / timeout / busy-loop latency, reload, clock jumps, reset) incl. two sharpness self-tests + real Cron / TimeDate / TimeSpan under a virtual wall clock with modelled latency, batch trace validation against CronTrace.tla (membership rules of Intervals.tla)',
+         'Cron.tla models the cron main task with a latency bound, the reload triggered by reconfig and clock jumps; TLC checks OutputCorrect (away from boundaries, at the latest one hour after a jump) and JumpNeverKills, and must find the '
+         'reload race (ReloadRecalcs = FALSE) and the empty-table reset failure. 1..4 real TimeDate / TimeSpan blocks in local and UTC mode (UTC+2 h virtual zone) with random times / dates / weekdays / spans (wrapping, microsecond '
+         'endpoints, empty and unset items) run 3..50 virtual hours from random starts, year / month ends, Feb 28/29, or a few ms before a boundary, with reconfig events 1..9 ms before boundaries followed by a busy loop of 0..20 ms, '
+         'forward jumps of 90 s .. 1 day and a backward jump; outputs are sampled 1 s before, 60 ms and 1 s after every boundary and at random moments; TLC evaluates for each sample Pred(cfg, wall) 30 ms before, at and 30 ms after '
+         'the moment (time / date / weekday / span membership in TLA+) and demands the output whenever the three agree (except during the hour after a forward jump), and that no jump ends the simulation.',
+         TRUSTED + '; every clock reading costs 2 us of virtual time (without it the service\'s retry loop never leaves a virtual instant); Eps = 30 ms covers the injected busy-loop latencies; calendar fields of the samples come from datetime; DST tables are outside the virtual clock', '6 C07'),
+})
 NA = {}
 ALL = [f'C{n:02d}' for n in range(1, 21)]
 
